@@ -161,6 +161,7 @@ func execDef(x *fw.Ctx, c Case) {
 		x.Cover("dirty:" + c.Feat)
 	} else {
 		x.Cover("def-clean")
+		x.Cover("avoided:all-avoid-set-constructs")
 	}
 	x.Cover(fmt.Sprintf("margin:%d-%d", m/20*20, m/20*20+19))
 	dir := caseDir(x)
@@ -353,6 +354,7 @@ func execSession(x *fw.Ctx, c Case) {
 		x.Cover("dirty:" + c.Feat)
 	} else {
 		x.Cover("session-clean")
+		x.Cover("avoided:all-avoid-set-constructs")
 	}
 	x.Cover(fmt.Sprintf("margin:%d-%d", m/20*20, m/20*20+19))
 	dir := caseDir(x)
